@@ -199,3 +199,17 @@ Proof.
 Qed.
 Lemma kt_fresh_start : kt_fresh (length cglobals).
 Proof. vm_compute; repeat split; discriminate. Qed.
+
+(* ------------------------------------------------------------------ N-fold retyping fails when the copies do not fit (KF-PUSH-CLIP) *)
+(* the source right after the typed keys `x` `4096` `.` were read: ibuf_pos = ibuf_cnt = 1, nothing pending; the recorded command is "x" *)
+Definition clip_src : src := mkSrc [] 1 1 gb_ibuf 0 gb_icmd [].
+Theorem push_clip_refuted : exists (s : src) (cells : list val) (n : nat),
+  src_ok s /\ (length cells < Z.to_nat IBUFSZ)%nat /\
+  keys (push_n_m n cells s) <> s_stk s ++ rpt n (map cell_key cells) ++ rest_keys s.
+Proof.
+  exists clip_src, [VInt 120], 4096%nat. split; [vm_compute; repeat split; discriminate|]. split; [vm_compute; lia|].
+  assert (E : Nat.eqb (length (keys (push_n_m 4096 [VInt 120] clip_src)))
+                      (length (s_stk clip_src ++ rpt 4096 (map cell_key [VInt 120]) ++ rest_keys clip_src)) = false)
+    by (vm_compute; reflexivity).
+  intro H. rewrite H in E. rewrite Nat.eqb_refl in E. discriminate E.
+Qed.
